@@ -8,6 +8,7 @@ import re
 
 from . import core, docgen, xmlcanon
 
+NEEDS_FRONTENDS = True
 LEVEL = "exploration"
 TECHNIQUE = "differential runtime oracle: infoset (expat event list) of output vs input for generated real-SVG documents and embedded subtrees"
 LEVEL_TEXT = ("Held on the executions observed: for ~5e4 generated well-formed namespaced documents x configurations, and for "
@@ -277,6 +278,23 @@ def diff_signature(a, b):
 
 def check_case(ctx, case):
     acc = ctx.acc
+    if case.get("kind") == "cli-file-history":
+        # replay: the same conversion into a file holding a longer earlier rendering
+        import os
+        import tempfile
+        from . import frontends
+        d = tempfile.mkdtemp(prefix="c03r-", dir=core.SCRATCH)
+        op = os.path.join(d, "out.svg")
+        open(op, "wb").write(b"<!-- earlier, longer content -->\n" * (2 + (case.get("previous_length", 0) + len(case["input"])) // 30))
+        res = frontends.run_cli(["-o", op], stdin=case["input"])
+        now = open(op, "rb").read()
+        try:
+            ok = res.rc == 0 and xmlcanon.infoset(xmlcanon.parse_events(now)) == xmlcanon.infoset(xmlcanon.parse_events(case["input"]))
+        except xmlcanon.XMLError:
+            ok = False
+        if not ok:
+            acc.violation("infoset-differs", "infoset:*/cli-file", case, observed=core.trunc(now[-300:], 300), expected="the document")
+        return
     acc.cases += 1
     data = case["input"]
     cfg = case.get("cfg")
@@ -411,3 +429,66 @@ def run_shard(ctx):
                                  feats=sorted(g2.feats | {"nested"}), variant=variant, copies=2 if variant.startswith("loop") else 1))
             if j < 2:
                 acc.sample(dict(variant=variant, input=core.trunc(doc2, 500)))
+    cli_file_history(ctx)
+
+
+def cli_file_history(ctx):
+    """The svgdx command converting real SVG into a file that already exists: a long document first, then shorter ones into
+    the same path (and one into a file holding something unrelated); the *file* must hold the document's infoset each time."""
+    import os
+    import shutil
+    import tempfile
+    from . import frontends
+    acc = ctx.acc
+    rng = ctx.rng("cli-files")
+    d = tempfile.mkdtemp(prefix="c03-", dir=core.SCRATCH)
+    try:
+        ip, op = os.path.join(d, "in.svg"), os.path.join(d, "out.svg")
+        for j in range(4 if ctx.quick() else 60):
+            if ctx.out_of_time():
+                break
+            docs = []
+            while len(docs) < 4:
+                g = RealGen(rng)
+                t = g.document().encode("utf-8")
+                try:
+                    xmlcanon.parse_events(t)
+                except xmlcanon.XMLError:
+                    continue
+                docs.append(t)
+            docs.sort(key=len, reverse=True)
+            if j % 2:
+                open(op, "wb").write(b"<!-- something else that was here before -->\n" * 400)
+            elif os.path.exists(op):
+                os.unlink(op)
+            for pos, data in enumerate(docs):
+                acc.cases += 1
+                via_stdin = (pos + j) % 3 == 0
+                if via_stdin:
+                    res = frontends.run_cli(["-o", op], stdin=data)
+                else:
+                    open(ip, "wb").write(data)
+                    res = frontends.run_cli([ip, "-o", op])
+                acc.evaluations += 1
+                acc.count("cli.file-history")
+                case = dict(kind="cli-file-history", input=data, variant="root", position=pos, previous_length=len(docs[pos - 1]) if pos else 0)
+                if res.timed_out:
+                    acc.inconc("cli-timeout")
+                    continue
+                acc.nontriv(core.chash("clifile", ctx.shard, j, pos), ["cli.file-output", "cli.stdin" if via_stdin else "cli.file-input"] + (["history.longer-file-before"] if pos or j % 2 else []))
+                if res.rc != 0:
+                    acc.violation("rejected", "rejected:cli-file/root", case, observed=dict(rc=res.rc, err=core.trunc(res.err, 300)), expected="exit 0")
+                    continue
+                now = open(op, "rb").read()
+                try:
+                    got = xmlcanon.infoset(xmlcanon.parse_events(now))
+                except xmlcanon.XMLError as e:
+                    acc.violation("output-illformed", "output-illformed/cli-file", case, observed=dict(error=str(e), tail=core.trunc(now[-300:], 300)), expected="the document",
+                                  what="the output file is not well-formed after converting real SVG into an existing file: %s" % e)
+                    continue
+                exp = xmlcanon.infoset(xmlcanon.parse_events(data))
+                if got != exp:
+                    cls, dd = diff_signature(exp, got)
+                    acc.violation("infoset-differs", "infoset:%s/cli-file" % cls, case, observed=dict(first_difference=dd), expected="identical infoset")
+    finally:
+        shutil.rmtree(d, ignore_errors=True)
